@@ -18,6 +18,7 @@ import IcontractModel.Conc
 import IcontractModel.Spec.PyEval
 import IcontractModel.Represent
 import IcontractModel.Lemmas.ExprWf
+import IcontractModel.AllTrace
 open Lean Icontract
 
 deriving instance FromJson, ToJson for Exc
@@ -769,6 +770,20 @@ def handle (line : String) : String :=
       match (fromJson? j : Except String CheckerCase) with
       | .ok c => (runChecker c).compress
       | .error e => (Json.mkObj [("error", jStr s!"decode checker: {e}")]).compress
+    | .ok "alltrace" =>
+      -- the iteration of an `all(<generator>)`: per assignment the truth of the element ("raise" = the element raises)
+      match j.getObjValAs? (Array Json) "truths" with
+      | .error e => (Json.mkObj [("error", jStr s!"alltrace: {e}")]).compress
+      | .ok arr =>
+        let ts : List (Except String Bool) := arr.toList.map (fun t => match t with
+          | .bool b => .ok b
+          | _ => .error "raise")
+        let idxs := List.range ts.length
+        let elt : Nat → Except String Bool := fun i => (ts[i]?).getD (.error "raise")
+        let r := Ex.traceAllIdx elt 0 idxs
+        let py := Ex.pyAll elt idxs
+        (Json.mkObj [("firstFalsy", match r with | .ok (some i) => jNat i | .ok none => Json.null | .error _ => jStr "raise"),
+                     ("pyAll", match py with | .ok b => Json.bool b | .error _ => jStr "raise")]).compress
     | .ok "invariants" =>
       match (fromJson? j : Except String InvCase) with
       | .ok c => (runInvariants c).compress
